@@ -251,7 +251,10 @@ class C19(Check):
         ops.append({'op': 'read', 'app': 0})
         if second:
             ops.append({'op': 'read', 'app': 1})
-        return {'world': 'stats', 'kind': 'history', 'seed': seed, 'config': {'table': table, 'second': second}, 'ops': ops}
+        return {'world': 'stats', 'kind': 'history', 'seed': seed, 'config': {'table': table, 'second': second,
+                           # some routes (and the application mounted twice) bring a StatsMiddleware of their own: a unique type, kept
+                           # once at its outermost position -- the host's instance counts them
+                           'own_stats': S['env'].random() < 0.4}, 'ops': ops}
 
     def gen_reservoir(self, seed, S):
         rng, erng = S['ops'], S['env']
@@ -420,11 +423,17 @@ class C19(Check):
             apps, mws, models = [], [], []
             for tb in tables:
                 m = cstats.StatsMiddleware()
-                rts = [('/_st/', cstats.create_stats_app())] + [Route(p, make_ep(o), methods=mm) for p, mm, o in tb if not p.startswith(('/m1', '/m2'))]
+                own = bool(plan['config'].get('own_stats'))
+
+                def own_mws(k):
+                    return [cstats.StatsMiddleware()] if own and k % 2 == 0 else []
+                if own:
+                    res.probe('route-with-a-stats-middleware-of-its-own')
+                rts = [('/_st/', cstats.create_stats_app())] + [Route(p, make_ep(o), methods=mm, middlewares=own_mws(k)) for k, (p, mm, o) in enumerate(tb) if not p.startswith(('/m1', '/m2'))]
                 mounted = [(p, mm, o) for p, mm, o in tb if p.startswith('/m1')]
                 if mounted:
                     # ONE application, mounted under two prefixes of this one
-                    shared_app = Application([Route(p[3:] or '/', make_ep(o), methods=mm) for p, mm, o in mounted])
+                    shared_app = Application([Route(p[3:] or '/', make_ep(o), methods=mm) for p, mm, o in mounted], middlewares=own_mws(0))
                     rts += [('/m1', shared_app), ('/m2', shared_app)]
                     res.probe('one-application-mounted-under-two-prefixes')
                 apps.append(Application(rts, middlewares=[m]))
